@@ -1,7 +1,7 @@
 (* C04, totality of the reader model: with non-zero frame and tick rates, a document without sequential time
    containers is always read (no Python exception leaves process); the seq case is the recorded finding
    seq-indefinite-sibling (Findings/C04.v). *)
-From TT Require Import Base.Prelude Base.ImscXml Model.ImscTime Model.ImscTiming Spec.TtmlTimingSpec Proofs.C04.TimeSyntax Proofs.C04.Interval.
+From TT Require Import Base.Prelude Base.ImscXml Model.ImscTime Model.ImscStyles Model.ImscTiming Spec.TtmlTimingSpec Proofs.C04.TimeSyntax Proofs.C04.Interval.
 From Coq Require Import QArith Qminmax Lqa.
 Local Open Scope Z_scope.
 
@@ -29,19 +29,23 @@ Fixpoint no_seq (x : xml) : bool :=
   | X _ attrs _ _ cs => read_par attrs && (fix all (l : list xml) : bool := match l with [] => true | c :: l' => no_seq c && all l' end) cs
   end.
 
+(* the only exception that can leave process is then the ValueError of nested / referential styling (code 5, finding
+   style-invalid-value-abort) *)
 Definition total_at (ev : env) (x : xml) : Prop :=
-  forall pc, pc_par pc = true -> no_seq x = true -> forall e, process ev pc x <> PErr e.
+  forall pc, pc_par pc = true -> no_seq x = true -> forall e, process ev pc x = PErr e -> e = 5.
 
 Lemma loop_total ev k db pr lg l : Forall (total_at ev) l ->
   (fix all (l : list xml) : bool := match l with [] => true | c :: l' => no_seq c && all l' end) l = true ->
-  forall iend kids anims pf e, children_loop (process ev) k true db pr lg l iend kids anims pf <> LErr e.
+  forall iend kids anims pf nst e,
+    children_loop (process ev) (e_to_model ev) (e_valid ev) k true db pr lg l iend kids anims pf nst = LErr e -> e = 5.
 Proof.
-  induction 1 as [|c l Hc Hl IH]; intros Hall iend kids anims pf e; cbn [children_loop].
+  induction 1 as [|c l Hc Hl IH]; intros Hall iend kids anims pf nst e; cbn [children_loop].
   - discriminate.
   - apply andb_true_iff in Hall as [Hc1 Hl1]. specialize (IH Hl1).
-    destruct (ekind_eqb k KRegion && is_style_elem c); [apply IH|].
+    destruct (ekind_eqb k KRegion && is_style_elem c).
+    { destruct (merge_absent (e_valid ev) (collect (e_to_model ev) (x_attrs c) []) nst); [apply IH|]. intro H. inversion H. reflexivity. }
     destruct (process ev (mkPctx true iend db pr lg (negb (ekind_eqb k KSet))) c) as [e'| |r] eqn:Ep.
-    + exfalso. eapply Hc; [| exact Hc1 | exact Ep]. reflexivity.
+    + intro H. inversion H; subst e'. eapply Hc; [| exact Hc1 | exact Ep]. reflexivity.
     + destruct (x_tail c); [destruct (k_is_mixed k && true)|]; apply IH.
     + destruct (x_tail c); [destruct (k_is_mixed k && true)|]; apply IH.
 Qed.
@@ -60,9 +64,9 @@ Proof.
   pose proof (read_time_some ev (get_attr attrs A_end) Hr).
   destruct (read_time ev (get_attr attrs A_end)); [|contradiction].
   unfold implicit_begin in H. rewrite Hpar in H. rewrite Hp in H.
-  match type of H with context [children_loop ?a ?b ?c ?d ?e0 ?f ?g ?h ?i ?j ?k0] =>
-    pose proof (loop_total ev b d e0 f g IHcs Hall h i j k0) as Hl;
-    destruct (children_loop a b c d e0 f g h i j k0) as [e'|iF kF aF pF] end.
-  - exfalso. eapply Hl. reflexivity.
-  - revert H. break_match; discriminate.
+  match type of H with context [children_loop ?a ?tm ?vl ?b ?c ?d ?e0 ?f ?g ?h ?i ?j ?k0 ?n0] =>
+    pose proof (loop_total ev b d e0 f g IHcs Hall h i j k0 n0) as Hl;
+    destruct (children_loop a tm vl b c d e0 f g h i j k0 n0) as [e'|iF kF aF pF nF] end.
+  - inversion H; subst e'. eapply Hl. reflexivity.
+  - revert H. break_match; intro H; inversion H; reflexivity.
 Qed.
